@@ -276,7 +276,7 @@ def main():
     try:
         c14_proofs.prove(rep, nmfu, program)
     except (Unsupported_, NeedFork_) as e:
-        rep.undecided_ob("C14/pyvc/CodegenCtx._generate_code_for_int_expr/engine", f"outside the modelled Python subset: {type(e).__name__}: {e}")
+        rep.unavailable("C14/pyvc/CodegenCtx._generate_code_for_int_expr/engine", f"outside the modelled Python subset: {type(e).__name__}: {e}")
     thorough = common.tier() == "thorough"
     ps = programs(1500 if thorough else 160, common.seed())
     _CTX["programs"] = ps
